@@ -229,6 +229,38 @@ func runC12(t *testing.T, sc SrvScenario, keep bool) *core.Result {
 			g = 1 // no stamped record (REFUSED): every generation gives the same answer
 		}
 		want := refResponse(sc.Backend, g, noKeyOf[g], q)
+		if q.Resp != nil && want != nil && q.Resp.Truncated && want.Truncated {
+			// which records survive truncation depends on the order of the values under one key,
+			// which is not part of the database's meaning (a diff-updated RocksDB and a freshly
+			// compiled one hold the same multiset in different orders): compare the kept records
+			// with the untruncated reference answer instead
+			res.Probe("truncated_response_compared_by_membership")
+			big := *q
+			big.Req = q.Req.Copy()
+			big.Req.SetEdns0(65000, false)
+			big.Q.EDNS = true
+			big.Q.ECS = 99 // a distinct reference-cache slot
+			full := refResponse(sc.Backend, g, noKeyOf[g], &big)
+			in := map[string]bool{}
+			if full != nil {
+				for _, k := range sectionKeys(full.Answer) {
+					in[k] = true
+				}
+			}
+			d := ""
+			for _, k := range sectionKeys(q.Resp.Answer) {
+				if !in[k] {
+					d = "answer: truncated response carries " + k + " which the full answer does not hold"
+				}
+			}
+			if q.Resp.Rcode != want.Rcode {
+				d = fmt.Sprintf("rcode %d, cache-off handler says %d", q.Resp.Rcode, want.Rcode)
+			}
+			if d != "" {
+				res.Add("cache-visible", "cache-visible|truncated", fmt.Sprintf("client %d query %d (%s): %s", q.Client, q.Idx, describeQ(q), d))
+			}
+			continue
+		}
 		if d := diffResponses(q.Resp, want, gen.Weighted(q.Q.Q)); d != "" {
 			via := "computed"
 			if q.Counters["DNS_cache.hit"] > 0 {
